@@ -218,6 +218,127 @@ pub fn split_a2ml(cx: &mut Cx, items: &mut [Item], dir: &str, st: &mut SplitStat
     false
 }
 
+/// tags of the blocks at the top level of a text, None if anything else than blocks and comments stands there
+fn top_level_block_tags(text: &str) -> Option<Vec<String>> {
+    let b = text.as_bytes();
+    let n = b.len();
+    let mut i = 0;
+    let mut toks: Vec<&str> = Vec::new();
+    while i < n {
+        let c = b[i];
+        if c.is_ascii_whitespace() {
+            i += 1;
+        } else if c == b'/' && i + 1 < n && b[i + 1] == b'/' {
+            while i < n && b[i] != b'\n' {
+                i += 1;
+            }
+        } else if c == b'/' && i + 1 < n && b[i + 1] == b'*' {
+            i += 2;
+            while i + 1 < n && !(b[i] == b'*' && b[i + 1] == b'/') {
+                i += 1;
+            }
+            i += 2;
+        } else if c == b'"' {
+            let s = i;
+            i += 1;
+            while i < n {
+                if b[i] == b'\\' {
+                    i += 2;
+                } else if b[i] == b'"' {
+                    if i + 1 < n && b[i + 1] == b'"' {
+                        i += 2;
+                    } else {
+                        i += 1;
+                        break;
+                    }
+                } else {
+                    i += 1;
+                }
+            }
+            toks.push(&text[s..i.min(n)]);
+        } else {
+            let s = i;
+            while i < n && !b[i].is_ascii_whitespace() && b[i] != b'"' {
+                i += 1;
+            }
+            toks.push(&text[s..i]);
+        }
+    }
+    let mut depth = 0i32;
+    let mut tags = Vec::new();
+    let mut k = 0;
+    while k < toks.len() {
+        match toks[k] {
+            "/begin" => {
+                if depth == 0 {
+                    tags.push((*toks.get(k + 1)?).to_string());
+                }
+                depth += 1;
+                k += 2;
+            }
+            "/end" => {
+                depth -= 1;
+                k += 2;
+            }
+            _ => {
+                if depth == 0 {
+                    return None;
+                }
+                k += 1;
+            }
+        }
+    }
+    if depth == 0 {
+        Some(tags)
+    } else {
+        None
+    }
+}
+
+/// the same file included twice in a row in one block: legal where the content consists of unnamed, repeatable
+/// blocks (ANNOTATION). Returns true if a directive was duplicated.
+fn duplicate_a_directive(cx: &mut Cx, f: &mut RenderedFile) -> bool {
+    for di in 0..f.directives.len() {
+        let d = &f.directives[di];
+        if d.a2ml_level || !d.file.directives.is_empty() {
+            continue;
+        }
+        let ok = top_level_block_tags(&d.file.text).is_some_and(|tags| !tags.is_empty() && tags.iter().all(|t| t == "ANNOTATION"));
+        if !ok || !cx.tape.chance(1, 2) {
+            continue;
+        }
+        let (start, end) = (d.start, d.end);
+        let mut copy = d.clone();
+        let insert = format!("\n{}", &f.text[start..end]);
+        let shift = insert.len();
+        f.text.insert_str(end, &insert);
+        for o in &mut f.directives {
+            if o.start >= end {
+                o.start += shift;
+                o.end += shift;
+                o.line += 1;
+            }
+        }
+        for sp in &mut f.spans {
+            if sp.start >= end {
+                sp.start += shift;
+                sp.end += shift;
+            }
+        }
+        copy.start = end + 1;
+        copy.end = end + shift;
+        copy.line += 1;
+        f.directives.push(copy);
+        return true;
+    }
+    for d in &mut f.directives {
+        if !d.a2ml_level && duplicate_a_directive(cx, &mut d.file) {
+            return true;
+        }
+    }
+    false
+}
+
 pub fn install_tree(fs: &Rc<SimFs>, cx: &mut Cx, root: &RenderedFile) {
     for f in root.all_files() {
         // included A2L files are sometimes stored in another encoding than the main file
@@ -293,6 +414,11 @@ impl Scenario for C16Includes {
             }
         }
         patch_empty(cx, &mut root);
+        if cx.tape.chance(1, 3) && duplicate_a_directive(cx, &mut root) {
+            // known finding KF-C16-1: the writer emits one directive per file and block
+            cx.probe("same-file-included-twice-in-one-block");
+            cx.trigger("same-file-included-twice-in-one-block");
+        }
         install_tree(&fs, cx, &root);
         for (rel, content) in &st.decoys {
             // only where it does not shadow a real file of the tree
@@ -671,6 +797,76 @@ impl Scenario for C16Cycles {
                 }
             }
         }
+        SimFs::uninstall();
+        Ok(())
+    }
+}
+
+/// replays a fixed file tree (a known finding recorded as literal input): load the main file, write it next to
+/// itself, reload, compare (T2). Format of the input: lines `#file <absolute path>` start a file, the first file
+/// is the main file; an optional first line `#trigger <name>` names the condition the tree was built for.
+pub struct C16FixedTree;
+
+impl Scenario for C16FixedTree {
+    fn property(&self) -> &'static str {
+        "C16"
+    }
+    fn name(&self) -> &'static str {
+        "fixed_tree_write_reload"
+    }
+    fn run(&self, cx: &mut Cx) -> Result<(), Violation> {
+        let Some(input) = crate::runner::FIXED_INPUT.read().unwrap().clone() else {
+            cx.vacuous = true;
+            return Ok(());
+        };
+        let fs = SimFs::new("/cwd", cx.tape.draw_u64());
+        fs.install();
+        fs.mkdir_p("/work");
+        let mut files: Vec<(String, String)> = Vec::new();
+        for line in input.split_inclusive('\n') {
+            if let Some(t) = line.strip_prefix("#trigger ") {
+                cx.trigger(t.trim());
+            } else if let Some(p) = line.strip_prefix("#file ") {
+                files.push((p.trim().to_string(), String::new()));
+            } else if let Some(f) = files.last_mut() {
+                f.1.push_str(line);
+            }
+        }
+        let Some(main) = files.first().map(|f| f.0.clone()) else {
+            cx.vacuous = true;
+            return Ok(());
+        };
+        let mut total = 0;
+        for (p, t) in &files {
+            fs.put(p, t.as_bytes());
+            total += t.len();
+            cx.event_lazy(&format!("file {p}"), || t.clone());
+        }
+        fs.begin_op(BTreeMap::new(), false);
+        let model = match sut::load_path(cx, "T1", &main, None, false, total)? {
+            Ok((m, _)) => m,
+            Err(e) => {
+                cx.vacuous = true;
+                cx.event(&format!("tree not accepted: {e}"));
+                return Ok(());
+            }
+        };
+        let written = format!("{}/main_written.a2l", dir_of(&main));
+        fs.begin_op(BTreeMap::new(), false);
+        match sut::write_path(cx, "T2", &model, &written, None)? {
+            Ok(()) => {}
+            Err(e) => return Err(cx.fail("T2", "write-failed", format!("{e}"))),
+        }
+        fs.begin_op(BTreeMap::new(), false);
+        match sut::load_path(cx, "T2", &written, None, false, 2 * total + 4096)? {
+            Ok((m2, _)) => {
+                if m2 != model {
+                    return Err(cx.fail("T2", "reloaded-model-differs", format!("loading the written main file from the same directory gives a different model: {}", crate::c01::model_diff(&model, &m2))));
+                }
+            }
+            Err(e) => return Err(cx.fail("T2", "reload-failed", format!("the written main file does not load from the same directory: {e}"))),
+        }
+        cx.nontrivial = true;
         SimFs::uninstall();
         Ok(())
     }
